@@ -261,11 +261,19 @@ class ObjectRewriter(FileRewriter):
             return
         else:
             logger.debug("opening temp file for writing...")
-            with NamedTemporaryFile(mode=write_mode,
-                                    dir=os.path.dirname(in_path),
-                                    delete=False,
-                                    encoding=self.encoding_out) as outfile:
-                self.object_representer.dump(outfile, self.formatter(obj))
+            outfile = None
+            try:
+                with NamedTemporaryFile(mode=write_mode,
+                                        dir=os.path.dirname(in_path),
+                                        delete=False,
+                                        encoding=self.encoding_out) as outfile:
+                    self.object_representer.dump(outfile, self.formatter(obj))
+            except Exception:
+                # formatting or serialization failed: don't leave the
+                # partially written temp file behind.
+                if outfile:
+                    remove_temp_file(outfile.name)
+                raise
 
             logger.debug("moving temp file to: %s", in_path)
 
@@ -327,11 +335,20 @@ class StreamRewriter(FileRewriter):
                 return
             else:
                 logger.debug("opening temp file for writing...")
-                with NamedTemporaryFile(mode='w+t',
-                                        dir=os.path.dirname(in_path),
-                                        delete=False,
-                                        encoding=self.encoding_out) as outfile:
-                    outfile.writelines(self.formatter(infile))
+                outfile = None
+                try:
+                    with NamedTemporaryFile(
+                            mode='w+t',
+                            dir=os.path.dirname(in_path),
+                            delete=False,
+                            encoding=self.encoding_out) as outfile:
+                        outfile.writelines(self.formatter(infile))
+                except Exception:
+                    # formatting or a write failed part-way: don't leave the
+                    # partially written temp file behind.
+                    if outfile:
+                        remove_temp_file(outfile.name)
+                    raise
 
                 is_in_place_edit = True
 
@@ -602,14 +619,29 @@ def move_temp_file(src, dest):
     try:
         move_file(src, dest)
     except Exception:
-        try:
-            os.remove(src)
-        except Exception as ex_clean:
-            # at this point, something's deeply wrong, so log error.
-            # raising the original error, though, not this error in the
-            # error handler, as the 1st was the initial cause of all of
-            # this.
-            logger.error("error removing temp file %s. %s",
-                         src, ex_clean)
-
+        remove_temp_file(src)
         raise
+
+
+def remove_temp_file(path):
+    """Remove temp file at path. Log but swallow any error doing so.
+
+    Use from an error handler: the caller raises its original error, not any
+    error from the clean-up.
+
+    Args:
+        path: str or path-like. temp file to delete.
+
+    Returns:
+        None.
+
+    """
+    try:
+        os.remove(path)
+    except Exception as ex_clean:
+        # at this point, something's deeply wrong, so log error.
+        # raising the original error, though, not this error in the
+        # error handler, as the 1st was the initial cause of all of
+        # this.
+        logger.error("error removing temp file %s. %s",
+                     path, ex_clean)
